@@ -28,31 +28,30 @@ func RunLean(lines []string) ([]string, error) {
 		return runLeanOne(lines)
 	}
 	const k = 16
+	// striped assignment (request i -> worker i mod k) balances batches whose cost varies along the list
+	parts := make([][]string, k)
+	for i, l := range lines {
+		parts[i%k] = append(parts[i%k], l)
+	}
 	res := make([][]string, k)
 	errs := make([]error, k)
 	var wg sync.WaitGroup
-	chunk := (len(lines) + k - 1) / k
 	for i := 0; i < k; i++ {
-		lo, hi := i*chunk, (i+1)*chunk
-		if lo >= len(lines) {
-			break
-		}
-		if hi > len(lines) {
-			hi = len(lines)
-		}
 		wg.Add(1)
-		go func(i, lo, hi int) {
+		go func(i int) {
 			defer wg.Done()
-			res[i], errs[i] = runLeanOne(lines[lo:hi])
-		}(i, lo, hi)
+			res[i], errs[i] = runLeanOne(parts[i])
+		}(i)
 	}
 	wg.Wait()
-	var out []string
+	out := make([]string, len(lines))
 	for i := 0; i < k; i++ {
 		if errs[i] != nil {
 			return nil, errs[i]
 		}
-		out = append(out, res[i]...)
+		for j, a := range res[i] {
+			out[j*k+i] = a
+		}
 	}
 	return out, nil
 }
@@ -186,7 +185,7 @@ type Report struct {
 	Violations  []Violation
 	KnownHits   map[string]int
 	KnownFirst  map[string]map[string]string // finding id -> first case of this run that matched its signature
-	KnownSeen   map[string]string // finding id -> what (example still failing)
+	KnownSeen   map[string]string            // finding id -> what (example still failing)
 	Notes       []string
 	Extra       map[string]any
 	Exhaustive  bool
